@@ -6,6 +6,7 @@ pub mod c07;
 pub mod c08;
 pub mod c09;
 pub mod c10;
+pub mod c11;
 pub mod c12;
 pub mod c13;
 pub mod c14;
@@ -33,6 +34,7 @@ pub fn lookup(id: &str) -> Option<(&'static str, RunFn, ReplayFn, &'static str, 
         "C08" => ("C08", c08::run, c08::replay, "exploration", c08::worker),
         "C09" => ("C09", c09::run, c09::replay, "exploration", c09::worker),
         "C10" => ("C10", c10::run, c10::replay, "exploration", c10::worker),
+        "C11" => ("C11", c11::run, c11::replay_any, "exploration", c11::worker),
         "C12" => ("C12", c12::run, c12::replay, "exploration", c12::worker),
         "C13" => ("C13", c13::run, c13::replay, "exploration", c13::worker),
         "C14" => ("C14", c14::run, c14::replay, "exploration", c14::worker),
